@@ -18,6 +18,7 @@ func init() {
 
 func runC09(c *Ctx) {
 	c08Globals(c, "C09")
+	c08GlobalEscape(c, "C09") // runners built by different goroutines must not share a package-level container
 	c08Tree(c, "C09")
 	c09NoConcurrency(c)
 	c09Registry(c)
